@@ -284,8 +284,16 @@ def probes(m, sim, chk, res):
         if not chk.step(evs, [], (0, 0), None, "lss"):
             return False
         evs = sim.rx(0x7E5, bytes([0x5E, 0, 0, 0, 0, 0, 0, 0]))
-        if not chk.step(evs, [(0x7E4, bytes([0x5E, nid, 0, 0, 0, 0, 0, 0]))], (0, 0), None, "lss"):
-            return False
+        if live:
+            if not chk.step(evs, [(0x7E4, bytes([0x5E, nid, 0, 0, 0, 0, 0, 0]))], (0, 0), None, "lss"):
+                return False
+        else:
+            # outside PRE-OPERATIONAL / OPERATIONAL the statement lists NMT and heartbeat only, CiA 305 lets LSS work in every state:
+            # both readings are accepted (an answer, if any, is the LSS answer; the frame never reaches another service)
+            ans = [(cid, d) for (t, cid, dlc, d, f) in S.txs(evs)]
+            if ans not in ([], [(0x7E4, bytes([0x5E, nid, 0, 0, 0, 0, 0, 0]))]) or S.cbs(evs, "canrx"):
+                chk.fail("lss/frames", "LSS inquiry in mode %d: frames %r" % (mode, [("%x" % c, d.hex()) for c, d in ans]))
+                return False
     # P6 foreign identifier
     chk.what = "probe foreign identifier in mode %d" % mode
     evs = sim.rx(0x123, bytes([1, 2, 3]))
